@@ -1,4 +1,4 @@
-import IgVerif.Lemmas.ModuleTerm
+import IgVerif.Lemmas.ModuleCycle
 /-!
 # C16 — module initialisation registers every library once, base classes first
 -/
@@ -42,6 +42,22 @@ theorem c16_terminates (g : Deps) (h : g.keys.Nodup) : (order g).finished = true
 theorem c16_all_emitted (g : Deps) (h : g.keys.Nodup) (k : String) (hk : k ∈ g.keys) : k ∈ (order g).libs :=
   (run_finishes (fuelFor g) g [] [] h List.nodup_nil (by simp) (by simpa using beta_lt_fuelFor g)).2 k
     ((has_iff g k).mpr hk)
+
+/-- **Only genuine cycles are broken.** Every dependency `a → b` the tool reports as broken
+is an edge of the dependency graph that lies on a cycle: `a` is reachable again from `b`. -/
+theorem c16_broken_on_cycle (g : Deps) (a b : String) (h : (a, b) ∈ (order g).broken) :
+    b ∈ g.get a ∧ Reach g b a :=
+  run_broken_ok g (fuelFor g) g [] [] (fun _ _ h => h) (by intro p hp; simp at hp) (a, b) h
+
+/-- consequently an acyclic graph (no library reachable from one of its own dependencies)
+is ordered topologically with nothing broken -/
+theorem c16_acyclic_unbroken (g : Deps) (hac : ∀ a b, b ∈ g.get a → ¬ Reach g b a) : (order g).broken = [] := by
+  cases hb : (order g).broken with
+  | nil => rfl
+  | cons p ps =>
+    have hm : (p.1, p.2) ∈ (order g).broken := by rw [hb]; simp
+    have := c16_broken_on_cycle g p.1 p.2 hm
+    exact absurd this.2 (hac _ _ this.1)
 
 /-- the hypothesis is satisfiable: a `std::map` has distinct keys -/
 example : (Deps.keys cyc').Nodup := by decide
